@@ -12,7 +12,11 @@ DefQ == [kind |-> "", by |-> "", pid |-> "", limit |-> 0, walk |-> "", reverse |
 DefIn == [t |-> "", chan |-> 0, rcv |-> "", dn |-> "", base |-> "", amt |-> 0, amtd |-> <<>>, amtc |-> "OK", mk |-> "",
           fw |-> DefFw, acts |-> <<>>, raw |-> "", faults |-> <<>>, rpc |-> "", signer |-> "", pid |-> "",
           cps |-> <<>>, cpc |-> <<>>, aid |-> "", v |-> 0, denom |-> "", op |-> "", who |-> "",
-          ids |-> <<>>, g |-> DefG, q |-> DefQ]
+          ids |-> <<>>, g |-> DefG, q |-> DefQ, disc |-> FALSE]
+
+\* the same input executed in a branch that is thrown away afterwards (a transaction whose later
+\* message fails, a gas simulation, a CheckTx): whatever happens inside, no state survives
+Discarded(in) == [in EXCEPT !.disc = TRUE]
 
 FwCCTP(dom, mint, caller) == [DefFw EXCEPT !.pid = "CCTP", !.at = "CCTP", !.dom = dom, !.mint = mint, !.caller = caller, !.to = "NONE"]
 FwHYP(tok, dom, rcp)      == [DefFw EXCEPT !.pid = "HYP", !.at = "HYP", !.tok = tok, !.dom = dom, !.rcp = rcp, !.to = "NONE"]
